@@ -403,13 +403,13 @@ func optimizerMergeCases(c *Ctx, g *load.G) {
 	l0, l1, c0, c1 := lit(P), lit(Q), cls(P), cls(Q)
 	cases := []mcase{
 		{"lit,lit", []string{"ok(" + l0 + ")", "ok(" + l1 + ")"},
-			[]string{"len([]rune(" + l0 + ".Val))==1", "len([]rune(" + l1 + ".Val))==1", l0 + ".IgnoreCase==" + l1 + ".IgnoreCase"},
+			[]string{"utf8.RuneCountInString(" + l0 + ".Val)==1", "utf8.RuneCountInString(" + l1 + ".Val)==1", l0 + ".IgnoreCase==" + l1 + ".IgnoreCase"},
 			[]string{P + "=&CharClassMatcher{Chars:append([]rune(" + l0 + ".Val),[]rune(" + l1 + ".Val)...),IgnoreCase:" + l0 + ".IgnoreCase,posValue:" + l0 + ".posValue}"}},
 		{"lit,class", []string{"ok(" + l0 + ")", "ok(" + c1 + ")"},
-			[]string{"len([]rune(" + l0 + ".Val))==1", l0 + ".IgnoreCase==" + c1 + ".IgnoreCase", "!" + c1 + ".Inverted"},
+			[]string{"utf8.RuneCountInString(" + l0 + ".Val)==1", l0 + ".IgnoreCase==" + c1 + ".IgnoreCase", "!" + c1 + ".Inverted"},
 			[]string{c1 + ".Chars=append(" + c1 + ".Chars,[]rune(" + l0 + ".Val)...)", P + "=" + c1}},
 		{"class,lit", []string{"ok(" + c0 + ")", "ok(" + l1 + ")"},
-			[]string{"len([]rune(" + l1 + ".Val))==1", c0 + ".IgnoreCase==" + l1 + ".IgnoreCase", "!" + c0 + ".Inverted"},
+			[]string{"utf8.RuneCountInString(" + l1 + ".Val)==1", c0 + ".IgnoreCase==" + l1 + ".IgnoreCase", "!" + c0 + ".Inverted"},
 			[]string{c0 + ".Chars=append(" + c0 + ".Chars,[]rune(" + l1 + ".Val)...)"}},
 		{"class,class", []string{"ok(" + c0 + ")", "ok(" + c1 + ")"},
 			[]string{c0 + ".IgnoreCase==" + c1 + ".IgnoreCase", "!" + c0 + ".Inverted", "!" + c1 + ".Inverted"},
@@ -423,7 +423,7 @@ func optimizerMergeCases(c *Ctx, g *load.G) {
 		// a merge is applied on this path iff a class is built or extended
 		merged := false
 		for _, e := range p {
-			if e.Kind == "set" && (strings.Contains(e.Text, ".Chars=append(") || strings.Contains(e.Text, "=CharClassMatcher{")) {
+			if e.Kind == "set" && (strings.Contains(e.Text, ".Chars=append(") || strings.Contains(e.Text, "=CharClassMatcher{") || strings.Contains(e.Text, "=&CharClassMatcher{")) {
 				merged = true
 			}
 		}
